@@ -202,6 +202,9 @@ func init() {
 					c.Nontrivial(f.Cmd + " --" + f.Flag)
 				}
 				c.Outcome(f.Type + ":" + f.Def)
+				if shared {
+					c.Sample(map[string]any{"command": f.Cmd, "flag": f.Flag, "documented_default": f.Def, "value_in_force": f.Actual, "flags_sharing_the_variable": len(groups[f.addr])})
+				}
 				c.Check(c19case{Kind: "static", Flag: &f}, func() (string, string) {
 					if f.Def != f.Actual {
 						culprit := ""
